@@ -780,6 +780,13 @@ class TArr:
         t = z3.Select(self.term, *[term_of(i, "int") for i in idx])
         return mk(simp(t), self.kind(), True)
 
+    def __getitem__(self, idx):
+        """contract-side read (no bounds branching): element term at (possibly symbolic) index"""
+        if not isinstance(idx, tuple):
+            idx = (idx,)
+        r = self.get(idx)
+        return Sym(r.t, r.kind, False) if isinstance(r, Sym) else raw(r)
+
     def __repr__(self):
         return f"TArr(shape={self.shape}, dtype={self.dtype}, {str(self.term)[:60]})"
 
